@@ -101,6 +101,7 @@ func c16Exec(op string) string {
 		return "bad-op " + c.err.Error()
 	}
 	mxj.XMLEscapeChars(true)
+	bystanders()
 	r := NewRng(uint64(seed))
 	notes := []string{}
 	note := func(s string) { notes = append(notes, s) }
